@@ -106,6 +106,9 @@ class Block2Cache:
     def __init__(self):
         # FIXME: introduce an actual parameter here
         self._completes = TimeoutDict(numbers.TransportTuning().MAX_TRANSMIT_WAIT)
+        self._latest_rendering = {}
+        """Block key -> marker of the most recently started response builder
+        that has not returned yet"""
 
     async def extract_or_insert(
         self, req: Message, response_builder: Callable[[], Awaitable[Message]]
@@ -122,8 +125,18 @@ class Block2Cache:
         """
         block_key = _extract_block_key(req)
 
+        is_latest = True
         if req.opt.block2 is None or req.opt.block2.block_number == 0:
-            assembled = await response_builder()
+            # Builders of the same key may overlap; only the one started last
+            # may update the stored representation when it is done.
+            marker = object()
+            self._latest_rendering[block_key] = marker
+            try:
+                assembled = await response_builder()
+            finally:
+                is_latest = self._latest_rendering.get(block_key) is marker
+                if is_latest:
+                    del self._latest_rendering[block_key]
         else:
             try:
                 assembled = self._completes[block_key]
@@ -138,7 +151,8 @@ class Block2Cache:
                 or req.opt.block2.block_number != 0
             )
         ):
-            self._completes[block_key] = assembled
+            if is_latest:
+                self._completes[block_key] = assembled
 
             block2 = req.opt.block2 or BlockOption.BlockwiseTuple(
                 0, 0, req.remote.maximum_block_size_exp
@@ -152,5 +166,6 @@ class Block2Cache:
             # The response is complete and supersedes whatever representation
             # was kept for this block key: later blocks must not be served from
             # an older rendering.
-            self._completes.pop(block_key, None)
+            if is_latest:
+                self._completes.pop(block_key, None)
             return assembled
